@@ -130,6 +130,19 @@ CLAIMS['C09']['text'] = ('On every WhenAll/Join strategy and combinator instanti
                          'empty range returns early), election word kinds/orders. The moment and content of '
                          'completion over interleavings are not decided.')
 
+CLAIMS.update({
+    'C17': dict(
+        text='R-DETERMINISM over the whole fault layer in the FIBER configuration (incl. static initialisers): D1 '
+             'deny-list of sources of run-to-run variation, D2 single seeded engine whose every draw is counted and '
+             'which SetSeed restarts together with the counter, D3 callers of GetRandNumber, D4 no address-dependent '
+             'order (pointer->integer, pointer relational compare, pointer-keyed or unordered iteration) in decision '
+             'code, D5 virtual time writers/clock/ordered sleepers, D6 injector state round trip. Necessary '
+             'conditions for reproducibility; bit-equality of two runs is a dynamic comparison and is not decided.',
+        technique='deny-list / who-may-reference / type-shape rules over the resolved call sites and declarations of '
+                  'the fault layer',
+        design='4/C17'),
+})
+
 NOT_YET = {}
 
 
